@@ -271,12 +271,16 @@ def emptySnap : Snap :=
   { lastLogId := none, first := 0, last := 0, durable := 0, isEmpty := true, lastEntry := none, terms := [],
     firstOf := [], lastOf := [], ents := [], vol := [], dur := some [], boundary := none }
 
-/-- does the operation ask for an arm order other than "command first" (a forced `select!` race)? -/
+/-- does the operation force a `select!` race: an arm order other than "command first", or a timer tick made
+    due while the operation waits for the IO loop? -/
+def Sched.racy (f : Sched) : Bool := f.prio.head? != some Arm.cmd || f.clock
+
 def Op.racy : Op → Bool
-  | .fca _ _ _ f => f.prio.head? != some Arm.cmd
-  | .purge _ _ f => f.prio.head? != some Arm.cmd
-  | .reset f => f.prio.head? != some Arm.cmd
-  | .flush f => f.prio.head? != some Arm.cmd
+  | .fca _ _ _ f => f.racy
+  | .purge _ _ f => f.racy
+  | .reset f => f.racy
+  | .flush f => f.racy
+  | .close f => f.racy
   | _ => false
 
 def monitorC18 (c : Case) (out : String) : String :=
@@ -286,8 +290,10 @@ def monitorC18 (c : Case) (out : String) : String :=
     | some recs =>
       match c18Walk {} [[]] emptySnap c.ops recs 0 with
       | (some sig, _) =>
-        -- the engine and whether the schedule forced a select! race are part of the name of the failure
-        "bad " ++ sig ++ (if c.sim then "" else "-filestore") ++ (if c.ops.any Op.racy then "-race" else "")
+        -- a failure in a case that forces a select! race (an arm other than the command arm first, or a timer
+        -- tick due while an operation waits) goes under one name; otherwise the engine is part of the name
+        if c.ops.any Op.racy then "bad c18-io-race"
+        else "bad " ++ sig ++ (if c.sim then "" else "-filestore")
       | (none, 0) => "skip"
       | (none, _) => "ok"
 
